@@ -47,11 +47,14 @@ def FsEvent.raw (e : FsEvent σ) : Obs :=
   else .noinfo
 
 /-- a failed fetch is taken for "gone" unless the answer was there but unusable; the property allows both for
-communication errors -/
+communication errors (no answer at all: `network`; an answer that is not the rule set: `status`).  An answer that
+arrived but is incomplete (`truncated`) is no communication error in this sense: it is a new version that cannot be used,
+and "an invalid new version leaves the previously loaded version active" — there is no latitude for it -/
 def HttpOutcome.obs : HttpOutcome → Obs
   | .valid h => .content h
   | .empty => .gone
   | .invalid => .noinfo
+  | .truncated _ => .noinfo
   | .status _ => .gone
   | .network => .gone
   | .cancelled => .noinfo
@@ -65,6 +68,15 @@ def BlobEvent.raw (e : BlobEvent σ) (s : σ) : Obs :=
     | some (_, some h) => .content h
     | some (_, none) => .noinfo
     | none => .gone
+
+/-- the poll finds blob `s` in the polled bucket (it is listed / it is the configured single blob, its attributes are
+read), but the body of the GET does not arrive completely -/
+def BlobEvent.incompleteFor (e : BlobEvent σ) (s : σ) : Prop :=
+  e.bucket s = true ∧
+  match e.fetch with
+  | .listing items => ∃ b, (s, b) ∈ items ∧ b.incomplete = true
+  | .single id (some b) => id = s ∧ b.incomplete = true
+  | _ => False
 
 /-- observation of step `e` for source `s`: a call the processor refuses changes nothing and will be retried -/
 def FsEvent.obs (e : FsEvent σ) (s : σ) : Obs := if e.name = s ∧ ¬ e.rej.contains s then e.raw else .noinfo
